@@ -32,6 +32,36 @@ func c07IPoE(entry string, n []uint64, f []string) string {
 			opts = append(opts, layers.DHCPOption{Type: layers.DHCPOpt(n[i]), Length: uint8(len(c07Arg(f, i-1))), Data: c07Arg(f, i-1)})
 		}
 		return c07Ok(c07U(uint64(getDHCPMessageType(opts))), c07TBN(getDHCPOption(opts, layers.DHCPOpt(c07Num(n, 0)))))
+	case "bkevl2": // bkevl2 <K> <events>: 'A' = forwardToL2GW, 'F' = the L2GW component takes one packet; occupancy = len(l2gwChan)
+		ch := make(chan *dataplane.ParsedPacket, int(c07Num(n, 0)))
+		c := &Component{cfgMgr: &c07L2GWCfg{grp: &subscriber.SubscriberGroup{AccessTypes: []subscriber.AccessType{subscriber.AccessTypeL2GW}}}}
+		c.l2gwChan = ch
+		var toks []string
+		for _, e := range data {
+			before := len(ch)
+			out := "5"
+			if e == 'F' {
+				if before > 0 {
+					<-ch
+					out = "4"
+				}
+			} else {
+				if !c07Returns(1500*time.Millisecond, func() { c.forwardToL2GW(&dataplane.ParsedPacket{OuterVLAN: 100}) }) {
+					c07Hangs++
+					toks = append(toks, c07U(uint64(len(ch))), "3")
+					break
+				}
+				out = "2"
+				if len(ch) == before+1 {
+					out = "1"
+				}
+			}
+			toks = append(toks, c07U(uint64(len(ch))), out)
+		}
+		if len(toks) == 0 {
+			return "ok"
+		}
+		return c07Ok(toks...)
 	case "bkl2gw": // bkl2gw <N>,<K>: N DHCP packets of an L2GW group while nobody drains the K-slot trigger queue
 		N, K := int(c07Num(n, 0)), int(c07Num(n, 1))
 		ch := make(chan *dataplane.ParsedPacket, K)
